@@ -6,7 +6,7 @@ package main
 // random statements follow and may use the variables the seed declared. Every statement still goes through
 // the specification model (g.try), so a seed that would be ill-typed or panic early is simply dropped.
 
-const nShapes = 11
+const nShapes = 12
 
 func iv(n int) Val                { return Val{K: "i", N: n} }
 func vx(x int) *LExp              { return &LExp{K: "v", X: x} }
@@ -369,6 +369,27 @@ func (g *gen) seedShape(k int) (ended bool) {
 		}
 		if l := intIn(g, dx(ix(vx(ps), g.pick(n))), T); l != nil {
 			g.top(&SOp{K: "op", L: l, C: 100 * (1 + g.pick(5))}, false)
+		}
+	case 11:
+		// seeded change C04-3: a literal assigned to a variable / element / pointee whose operands read the destination,
+		// directly and through a pointer alias
+		T := pick("P", "Q", "[2]int", "[2]P", "[3]int", "S")
+		x, ok := g.defLit(T)
+		if !ok {
+			return
+		}
+		p := g.fresh()
+		if kept, _ := g.top(&SOp{K: "def", X: p, T: "*" + T.Src, R: &RExp{K: "adr", T: "*" + T.Src, L: vx(x)}}, false); !kept {
+			return
+		}
+		for i, k := 0, 1+g.pick(3); i < k; i++ {
+			dst := vx(x)
+			if g.chance(0.25) {
+				dst = dx(vx(p))
+			}
+			if o := g.fillLit(&SOp{K: "clit", L: dst, T: T.Src}, dst, T); o != nil {
+				g.top(o, false)
+			}
 		}
 	default:
 		// F04-11: `&[n]T{…}` evaluated at each iteration: a new array each time
